@@ -313,7 +313,8 @@ def run(prop, tier, seed, replay=None):
             json.dump(F.probe_filters(u), open(fpath, "w"))
         t0 = time.time()
         tfiles = S.run_storedrv(bindir, upath, hs, wd, uname, filters_path=fpath or None, extra=conf["extra"],
-                                shards=min(len(hs), 2 * C.NCPU) if uname.startswith("exp") else None)
+                                shards=min(len(hs), 2 * C.NCPU) if uname.startswith("exp") else None,
+                                on_disk=(uname == "sz"))
         t1 = time.time()
         bad, lines = S.judge(prop, upath, tfiles, fpath)
         t2 = time.time()
